@@ -215,8 +215,17 @@ def generate(cls, rng):
                     ops.append(["q", t, q])
             else:
                 ops.append(["q", rng.choice([0, 1, 2]), q])
-    return dict(target=target, warm=rng.choice([0, 1, 5, 9, 10, 11, 15, 25]),
-                ops=ops, fwd0=fwd0, aware=rng.random() < 0.08)
+    sc = dict(target=target, warm=rng.choice([0, 1, 5, 9, 10, 11, 15, 25]),
+              ops=ops, fwd0=fwd0, aware=rng.random() < 0.08)
+    if is_rule and not sc["aware"] and 1971 <= target["dtstart"][0] <= 2100 \
+            and "until" not in target and rng.random() < 0.06:
+        # the rule is built WITHOUT dtstart, at the simulated instant that
+        # equals its nominal dtstart; the clock then moves on
+        target["implicit_dtstart"] = True
+        for _ in range(rng.choice([1, 2, 3])):
+            ops.insert(rng.randrange(len(ops) + 1),
+                       ["tick", rng.choice([1, 2, 61, 3600, 86400 * 40])])
+    return sc
 
 
 def cache_state(t):
@@ -233,6 +242,16 @@ def execute(cls, scenario, ctx):
     tspec = scenario["target"]
     fwd0 = scenario.get("fwd0", 0) % 7
     calendar.setfirstweekday(fwd0)
+    clock = None
+    if tspec.get("implicit_dtstart"):
+        import os
+        import time
+        from dsim import simclock
+        os.environ["TZ"] = "UTC"
+        time.tzset()
+        clock = simclock.install()
+        clock.set(calendar.timegm(tuple(tspec["dtstart"][:6]) + (0, 0, 0)))
+        ctx.probe("rule_built_without_dtstart")
     if scenario.get("aware"):
         # timezone-aware start, listed dates and query arguments, in three
         # different UTC offsets
@@ -334,6 +353,10 @@ def execute(cls, scenario, ctx):
                 clients[t].do(["xiter", h, op[2], op[3], op[4]])
                 clients[t].do(["next", h, 1])
             guarded(xl, op)
+        elif op[0] == "tick":
+            if clock is not None:
+                clock.tick(op[1])
+                ctx.event("tick", op[1])
         elif op[0] == "firstweekday":
             # process reconfiguration: rules already built keep the week
             # start they were built with
@@ -350,6 +373,8 @@ def execute(cls, scenario, ctx):
             # original was built with stays, whatever the calendar module
             # says by now
             spec2.setdefault("wkst", fwd0)
+            # (and the start it was built with, whatever the clock says now)
+            spec2.pop("implicit_dtstart", None)
             spec2[name] = val
             if name == "byweekday":
                 # replaces the whole BYDAY part, n-th weekdays included
